@@ -34,6 +34,8 @@ CHECKS = {
          "S-NSSAI, AMF-ID split, transport layer addresses (IPv4/IPv6/dual, both directions) and protocol configuration options (marshal + parse back) are judged against the TLA+ transcriptions; PLMN conversion with C11."),
  "C12": ("TLC-generated well-formed setup requests (GenExtract: spec SMF + Per.tla) replayed into the real extractors and judged by TLC; TLC liveness model checking of the extraction walk (PduExtract.tla) with leads replayed under a watchdog",
          "The specification's SMF builds Accepts (optional IE subsets in table order, QoS rule lengths 0..4000) inside protected DL NAS TRANSPORT and PER-encodes setup request transfers; the real extractors must return exactly the address/TEID/UPF the generator put in. Termination: the walk is transcribed as a TLA+ state machine and model-checked for termination over all octet-class strings up to length 4; every class string up to length 3|4 and random inputs up to 4 KiB are run through the real functions under a 2 s watchdog."),
+ "C14": ("fault enumeration generated by a TLA+ fault model (PerFault.tla: truncate / flip-bit / set-octet / max-count / insert / delete actions over valid encodings), replayed into the real decoder under a watchdog, outcomes judged by TLC (Totality.tla)",
+         "TLC derives the faulty inputs from valid encodings of every message type with the actions of PerFault.tla; the real ngap.Decoder runs each under a 3 s watchdog with wall time and allocation measured; Totality.tla demands outcome in {value, error} within 200 ms and 64 MiB. Seeded random strings, multi-byte corruptions and splices are added on the Go side."),
 }
 NA = {}
 def main():
@@ -56,7 +58,7 @@ def main():
                             "thorough_cmd": "bin/check %s --tier thorough" % pid,
                             "evidence_file": "evidence/%s.json" % pid,
                             "replay_cmd_template": "bin/check %s --replay {path}" % pid, "engine": "tlc",
-                            "level_claimed": {"category": "model_checking", "text": text, "design_ref": "DESIGN.md section 5, " + pid},
+                            "level_claimed": {"category": "fault_enumeration" if pid == "C14" else "model_checking", "text": text, "design_ref": "DESIGN.md section 5, " + pid},
                             "level_note": TRUST, "technique": tech})
     json.dump(m, open(os.path.join(V, "MANIFEST.json"), "w"), indent=1)
 if __name__ == "__main__":
